@@ -1,20 +1,24 @@
 #!/bin/bash
-# usage: bin/benigntest.sh <patch-file> [property ids...] — apply a behaviour-preserving patch to /repo, run the quick checks
-# (all 20 by default), revert. Prints one line per property; any exit other than 0 is a false alarm (1) or an
-# analysis that no longer goes through (2) and needs looking at. Evidence files are put back afterwards.
+# usage: bin/benigntest.sh <patch-file> [property ids...]
+# Applies a behaviour-preserving patch to a scratch worktree of /repo HEAD and runs the quick checks (all 20 by
+# default) against it, with a scratch copy of /verif/harness whose go.mod points at that worktree ($VERIF_DIR /
+# $VERIF_REPO of gosym). /repo, /verif/harness and /verif/evidence are not touched. One line per property; any
+# exit other than 0 is a false alarm (1) or an analysis that no longer goes through (2).
 set -u
-patch=$1; shift
+patch=$(readlink -f $1); shift
 props=${@:-C01 C02 C03 C04 C05 C06 C07 C08 C09 C10 C11 C12 C13 C14 C15 C16 C17 C18 C19 C20}
-cd /repo || exit 2
-if [ -n "$(git status --porcelain)" ]; then echo "/repo not clean"; exit 2; fi
-git apply $patch || { echo "patch does not apply: $patch"; exit 2; }
-keep=$(mktemp -d); cp /verif/evidence/C*.json $keep/
-cd /verif; bad=0
+tag=$(basename $(dirname $patch))_$(basename $patch .diff)
+S=/tmp/benignrun_$tag
+rm -rf $S; git -C /repo worktree prune; mkdir -p $S/verif
+git -C /repo worktree add -q --detach $S/repo HEAD || exit 2
+git -C $S/repo apply $patch || { echo "patch does not apply: $patch"; git -C /repo worktree remove --force $S/repo; rm -rf $S; exit 2; }
+cp -r /verif/harness $S/verif/harness; cp /verif/known_findings.json $S/verif/
+sed -i "s#=> /repo#=> $S/repo#" $S/verif/harness/go.mod
+bad=0
 for p in $props; do
-  out=$(timeout 1500 bin/gosym check $p --tier quick 2>&1); rc=$?
-  echo "benign $(basename $(dirname $patch))/$(basename $patch) $p exit=$rc $(echo "$out" | grep -a '^VIOLATION\|^INCONCLUSIVE' | head -2 | cut -c1-220 | tr '\n' ' ')"
+  out=$(VERIF_DIR=$S/verif VERIF_REPO=$S/repo timeout 1500 /verif/bin/gosym check $p --tier quick 2>&1); rc=$?
+  echo "benign $tag $p exit=$rc $(echo "$out" | grep -a '^VIOLATION\|^INCONCLUSIVE' | head -2 | cut -c1-220 | tr '\n' ' ')"
   [ $rc -ne 0 ] && bad=1
 done
-git -C /repo checkout -- .
-cp $keep/C*.json /verif/evidence/; rm -rf $keep
+git -C /repo worktree remove --force $S/repo; rm -rf $S
 exit $bad
